@@ -269,16 +269,17 @@ def c08(run):
     run.assumptions += ['byte strings, arrays and maps are within the decoder limits (length < 2^63, at most 131072 elements, nesting at most 32): hypotheses `encodable` / `fits`',
                         'maps have pairwise distinct encoded keys (hypothesis `kd`): a Go map cannot hold a key twice; the same label under two Go integer types is refused by CoseMap.MarshalCBOR since 75d9c93 (nested map values: known finding F17)',
                         'time.Time values (tags 0 / 1) and maps keyed by something other than text or integers are kept opaque by the model']
-    D.prove(run, extra_targets=['Model/CborCorr.vo', 'Model/MsgWireCorr.vo'])
+    D.prove(run, extra_targets=['Model/CborCorr.vo', 'Model/MsgWireCorr.vo', 'Model/CwtCodecCorr.vo'])
     rc, o = D.harness_build()
     if rc != 0:
         run.broke('harness build', o[-1500:])
     else:
+        D.correspond(run, 'claims', [], reference_theorem='C08_claims_strict (model of the CBOR form of cwt.Claims; duplicate keys at any depth refused also under unknown claims)')
         D.correspond(run, 'cbor', [], reference_theorem='C08_decode_encode / C08_duplicate_key_refused / C08_indefinite_refused (model of the CBOR library)')
         D.correspond(run, 'msgparts', [], reference_theorem='C08_labels / C08_wrong_arity_refused (header maps, recipients, KDF contexts)')
         D.correspond(run, 'c08probe', [], reference_theorem='C08_malformed_refused / C08_duplicate_key_refused_at_any_depth (typed payloads and members)')
     run.cov['rule'] = ('generated CBOR items (all head widths, any map order, depth to 3) decoded and re-encoded; per item one malformation: trailing bytes, truncation, indefinite length at a random position, reserved head, duplicate keys (also after integer normalisation, nested up to 2 levels), invalid UTF-8, nesting 30..34, counts beyond the limits, random bytes; '
-                       'header maps with labels of several Go integer types, insertion orders and nested values encoded 3 ways and compared; recipients (one nesting level, two refused), KDF contexts with nil/empty/non-empty members, label range probes; wrong-typed payload members of COSE_Mac0')
+                       'claim sets in struct form: produced, mutated and hand-made maps (member / foreign keys of every CBOR type, values of every type, repeated keys at depth) decoded, accepted ones scanned for duplicate keys by an independent walker; header maps with labels of several Go integer types, insertion orders and nested values encoded 3 ways and compared; one label under every pair of Go integer types; recipients (one nesting level, two refused), KDF contexts with nil/empty/non-empty members, label range probes; wrong-typed payload members of COSE_Mac0')
     return D.finish(run, 'proof')
 
 
@@ -337,12 +338,13 @@ def c09(run):
     run.trusted += MSG_TRUST + ['stream values: encode / decode / compare on the implementation for keys, key sets, header maps, claim sets (struct and map forms), recipients, KDF contexts, ByteStr (CBOR, JSON, text)']
     run.assumptions += ['the bytes written for the unprotected header map decode (hypothesis of the still-verifies theorems; compared with the implementation by msgparts)',
                         'members within the decoder limits (`encodable`)']
-    D.prove(run, extra_targets=['Model/MsgWireCorr.vo', 'Model/TextCorr.vo', 'Model/CwtCodecCorr.vo'])
+    D.prove(run, extra_targets=['Model/MsgWireCorr.vo', 'Model/TextCorr.vo', 'Model/CwtCodecCorr.vo', 'Model/KeySetCorr.vo'])
     rc, o = D.harness_build()
     if rc != 0:
         run.broke('harness build', o[-1500:])
     else:
         D.correspond(run, 'claims', [], reference_theorem='C09_claims_roundtrip (model of the CBOR form of cwt.Claims)')
+        D.correspond(run, 'keyset', [], reference_theorem='C09_keyset_roundtrip (model of the CBOR form of key.KeySet)')
         D.correspond(run, 'text', [], reference_theorem='C09_bytestr_text_roundtrip / C09_bytestr_json_roundtrip / C09_cosemap_*_as_cbor (model of the text and JSON forms)')
         D.correspond(run, 'msg', [], reference_theorem='C09_reencode_* (model of MarshalCBOR after UnmarshalCBOR)')
         D.correspond(run, 'msgparts', [], reference_theorem='C09_decode_encode / C09_struct_members_roundtrip (header maps, recipients, KDF contexts)')
